@@ -347,11 +347,14 @@ pub fn build(cfg: &Cfg) -> Result<Live, String> {
                         in_call: false,
                         busy: false,
                         pub_calls: 0,
+                        in_invall: false,
+                        clock: clock.clone(),
                         out: Vec::new(),
                         cache: c.clone(),
                     })
                 });
                 INJECT_HOOK.with(|h| h.set(Some(injected_step)));
+                mini_moka::verif::set_clock_read_hook(Some(injected_at_clock_read));
             }
             Ok(Live::Sync(c, clock))
         }
@@ -551,6 +554,10 @@ struct Inj {
     /// whole public calls injected during the current maintenance run (bounded: a call made
     /// inside a run cannot start housekeeping itself, so the write channel must keep room)
     pub_calls: u32,
+    /// a scripted `invalidate_all` is in progress: at its clock reading (before it stores the
+    /// watermark) other logical threads may run whole calls and the clock may move
+    in_invall: bool,
+    clock: VerifClock,
     out: Vec<String>,
     cache: SCache<VKey, VVal, VBuildHasher>,
 }
@@ -679,6 +686,63 @@ fn set_in_maint(on: bool) {
     });
 }
 
+/// Called by the mock clock right after a reading was taken (hook `set_clock_read_hook`). Only a
+/// scripted `invalidate_all` is a safe and interesting place: the call holds nothing yet, and
+/// between its clock reading and its store of the watermark other threads may insert and
+/// invalidate at later readings. The scripted call is linearised at its reading, so its line is
+/// printed BEFORE the lines of what happened in between.
+fn injected_at_clock_read() {
+    let act = INJ.with(|i| {
+        let mut b = match i.try_borrow_mut() {
+            Ok(b) => b,
+            Err(_) => return None,
+        };
+        match b.as_mut() {
+            Some(x) if x.in_invall && !x.busy => {
+                if x.rng.below(2) != 0 {
+                    return None;
+                }
+                x.busy = true;
+                let k = x.rng.below(x.nkeys);
+                let v = x.rng.below(12);
+                let variant = x.rng.below(4);
+                let d = [1u64, 1000, 600_000_000][x.rng.below(3) as usize];
+                Some((x.cache.clone(), x.clock.clone(), k, v, variant, d))
+            }
+            _ => None,
+        }
+    });
+    if let Some((c, clock, k, v, variant, d)) = act {
+        let mut lines = Vec::new();
+        clock.advance(dur(d as u128));
+        lines.push(format!("adv {} -> ok", d));
+        if variant != 3 {
+            c.insert(VKey::new(k), VVal::new(v));
+            lines.push(format!("ins {} {} -> ok", k, v));
+        }
+        if variant >= 1 {
+            clock.advance(dur(d as u128));
+            lines.push(format!("adv {} -> ok", d));
+            c.invalidate_all();
+            lines.push("invall -> ok".to_string());
+        }
+        INJ.with(|i| {
+            if let Some(x) = i.borrow_mut().as_mut() {
+                x.out.extend(lines);
+                x.busy = false;
+            }
+        });
+    }
+}
+
+fn set_in_invall(on: bool) {
+    INJ.with(|i| {
+        if let Some(x) = i.borrow_mut().as_mut() {
+            x.in_invall = on;
+        }
+    });
+}
+
 fn no_public_calls() {
     INJ.with(|i| {
         if let Some(x) = i.borrow_mut().as_mut() {
@@ -696,6 +760,7 @@ pub fn take_injected() -> Vec<String> {
 
 pub fn clear_inject() {
     INJECT_HOOK.with(|h| h.set(None));
+    mini_moka::verif::set_clock_read_hook(None);
     INJ.with(|i| *i.borrow_mut() = None);
 }
 
@@ -958,7 +1023,9 @@ fn exec_sync<S: std::hash::BuildHasher + Clone + Send + Sync + 'static>(c: &SCac
             )
         }
         Some("invall") if ws.len() == 1 => {
+            set_in_invall(true);
             c.invalidate_all();
+            set_in_invall(false);
             "ok".into()
         }
         Some("sync") if ws.len() == 1 => {
@@ -1126,10 +1193,19 @@ pub fn run_file<R: BufRead, W: Write>(input: R, out: &mut W) {
                 }
             },
         };
-        for l in take_injected() {
-            writeln!(out, "{}", l).unwrap();
+        if op == "invall" {
+            // linearised at its clock reading: what other threads did before it stored the
+            // watermark comes after it
+            writeln!(out, "{} -> {}", op, res).unwrap();
+            for l in take_injected() {
+                writeln!(out, "{}", l).unwrap();
+            }
+        } else {
+            for l in take_injected() {
+                writeln!(out, "{}", l).unwrap();
+            }
+            writeln!(out, "{} -> {}", op, res).unwrap();
         }
-        writeln!(out, "{} -> {}", op, res).unwrap();
         if dead {
             // A cache that panicked mid-operation may be inconsistent: leak it rather
             // than running its destructor.
